@@ -1,0 +1,32 @@
+//go:build verif
+
+package mux
+
+// Contracts for gvc (see /verif/DESIGN.md). Comment-only: this file adds no code to any build.
+//
+// The Go helper functions that gleece ships inside partials/function.declarations.hbs are verified as rendered
+// by the real generator into the fixture module (package fxproj/out/mux); their text contains no template
+// expansion, so the proof is independent of the project.
+
+//@ rendered-package fxproj/out/mux
+
+// The user's authorization callback: for one request its verdict is modelled as a function of the check
+// (assumption: the verdict on a check does not depend on which checks were asked before).
+//@ ufunc approves(c runtime.SecurityCheck) bool
+//@ extern fxproj/auth/mux.GleeceRequestAuthorization
+//@ ensures (result1 == nil) == approves(check)
+
+//@ func getRequestContext trusted
+//@ func setRequestContext trusted
+//@ modifies any(http.Request)
+
+//@ spec listApproved(l SecurityCheckList) bool = forall(j, 0, len(l.Checks), approves(l.Checks[j]))
+
+// The gate: nil (proceed) iff there is no alternative at all or every check of at least one alternative was approved.
+//@ func authorize props C03,C14
+//@ requires forall(i, 0, len(checksLists), checksLists[i].Relation == SecurityListRelationAnd)
+//@ modifies any(http.Request)
+//@ ensures gate: (result == nil) == (len(checksLists) == 0 || exists(i, 0, len(checksLists), listApproved(checksLists[i])))
+//@ loop 0 invariant 0 <= _n && _n <= len(checksLists) && forall(i, 0, _n, !listApproved(checksLists[i])) && (lastError != nil) == (_n > 0)
+//@ loop 1 invariant 0 <= _n1 && _n1 <= len(list.Checks) && forall(j, 0, _n1, approves(list.Checks[j])) && !encounteredErrorInList && list == checksLists[_n0]
+//@ loop 1 invariant 0 <= _n0 && _n0 < len(checksLists) && forall(i, 0, _n0, !listApproved(checksLists[i])) && (lastError != nil) == (_n0 > 0)
